@@ -1381,6 +1381,18 @@ def no_partial_output(chk, rule, fn_path, producer, writers):
                 offenders.append(callee_name(c))
         chk.ob(rule, "%s/nothing-fallible-after-write" % short, not offenders, f.loc(wb),
                "after the writer only its own `?` and drops may follow, so a failing run never leaves a spectrum on stdout (calls after the write: %s)" % offenders)
+    # a successful run always writes: from the producer's success edge every path to `return` passes the writer or a `?` error exit
+    stops = {wb for wb, _ in ws} | {b for b, t in f.calls() if callee_is(t["callee"], N.FROM_RESIDUAL)}
+    stops |= {b for b, t in f.calls() if callee_name(t["callee"]).startswith(("core::panicking", "std::process::exit"))}
+    silent = [b for b in f.reachable_from(cont, avoid=stops) if f.term(b)["k"] == "return"]
+    # error values built without `?` (return Err(..)) also count as error exits: a block assigning Err to the return place
+    def err_exit(b):
+        return any(s["k"] == "assign" and P(s["place"])[0] == 0 and s["rv"]["k"] == "aggregate" and s["rv"].get("variant") == "Err" for s in f.stmts(b))
+    if silent:
+        errs = {b for b in f.nodes() if err_exit(b)} | {b for b, t in f.calls() if P(t["dest"])[0] == 0 and t["dest_ty"].startswith("core::result::Result") and not callee_is(t["callee"], *writers)}
+        silent = [b for b in f.reachable_from(cont, avoid=stops | errs) if f.term(b)["k"] == "return"]
+    chk.ob(rule, "%s/success-always-writes" % short, not silent, f.loc(pb),
+           "every successful path from the producer to `return` passes the writer (a conditional or skipped write would print nothing and exit 0); silent returns reachable: %s" % [f.loc(b) for b in silent])
     # the Break edge of the producer does not reach a writer
     br = f.reachable_from(brk)
     chk.ob(rule, "%s/failed-producer-writes-nothing" % short, not any(wb in br for wb, _ in ws), f.loc(pb), "the error edge of the producer must not reach the writer")
